@@ -39,12 +39,15 @@ type (
 		waiting     bool
 		closing     bool
 		inbound     []byte
+		dispatching sync.WaitGroup // the command being executed, if any
+		onClosed    func()         // called once the connection has terminated completely
 	}
 )
 
-func newClientCxn(l lane.Lane, cxn net.Conn, dispatcher *cmdDispatcher) *clientCxn {
+func newClientCxn(l lane.Lane, cxn net.Conn, dispatcher *cmdDispatcher, onClosed func()) *clientCxn {
 	cc := &clientCxn{
 		cxn:         cxn,
+		onClosed:    onClosed,
 		started:     time.Now(),
 		socketState: csNone,
 		csceCh:      make(chan *clientStateEvent, 3),
@@ -175,7 +178,14 @@ func (cc *clientCxn) run() {
 
 func (cc *clientCxn) onTerminate() {
 	cc.cxn.Close()
+	// a command still executing for this connection finishes first (a blocked
+	// one has been unblocked by RequestClose), so that nothing runs on behalf of
+	// the connection once it counts as terminated
+	cc.dispatching.Wait()
 	cc.cs.unregister()
+	if cc.onClosed != nil {
+		cc.onClosed()
+	}
 }
 
 func (cc *clientCxn) onInitialize() {
@@ -247,7 +257,9 @@ func (cc *clientCxn) parseCommand() (cmd respValue, length int) {
 }
 
 func (cc *clientCxn) onDispatchCommand(cmd respValue) {
+	cc.dispatching.Add(1)
 	go func() {
+		defer cc.dispatching.Done()
 		simTaskBegin("cmd", cc.cs.id)
 		defer simTaskEnd()
 		defer simRecover()
